@@ -12,6 +12,7 @@ def viol(report, rule, what, kind, msg, where="-"):
 
 
 def run(ctx):
+    prog = ctx.prog
     prog, W = ctx.prog, ctx.whole
     report = Report("C03", ctx, "R1 every write_compressed_to emits the same wire elements in the same order as the type's write_to, names "
                     "being the only items allowed to go through the compressing writer; Name::compress_append writes, per label, either "
@@ -24,6 +25,8 @@ def run(ctx):
     for tn, (plain, comp, b, cb) in sorted(seqs.items()):
         if comp is None or tn == "RData":
             continue        # RData only dispatches to the variant's writer (C18-R3 / C04-R1 cover the pairing)
+        if tn == "Name" and (prog.absorbed.get("simple_dns::Name::compress_append") or prog.absorbed.get("simple_dns::Name::plain_append")):
+            continue        # the label writers live in Name's own write_to / write_compressed_to now: compared below, label by label
         if tn == "ResourceRecord" and comp[-3:] == ["bytes2", "~sub:RData", "u16"]:
             # RDLENGTH is written as a 2-byte placeholder and patched after the RDATA (positions checked by C04-R6)
             comp = comp[:-3] + ["u16", "~sub:RData"]
